@@ -434,6 +434,17 @@ def _set_typed(ctx, f, e, depth=0):
         return any(_set_typed(ctx, f, v, depth + 1) for v in vals)
     if isinstance(e, ast.Attribute) and e.attr in ('always_break_tokens', 'single_quoted', 'triple_quoted'):
         return True
+    if isinstance(e, ast.Attribute) and depth == 0:
+        # an instance attribute that only ever holds sets (every assignment to it in its module builds a set)
+        vals = []
+        for g in f.mod.funcs.values():
+            for n in walk_own(g.node):
+                if isinstance(n, ast.Assign):
+                    for t in n.targets:
+                        if isinstance(t, ast.Attribute) and t.attr == e.attr:
+                            vals.append((g, n.value))
+        if vals and all(_set_typed(ctx, g, v, depth + 1) for g, v in vals):
+            return True
     return False
 
 
